@@ -127,6 +127,10 @@ pub mod c20 {
         match header {
             "none" => {}
             "bad" => rb = rb.header(F::identity_header(), "not-an-identity"),
+            // x<hex>: raw header bytes (opaque octets: `HeaderValue::to_str` fails)
+            v if v.len() > 1 && v.starts_with('x') && v[1..].bytes().all(|b| b.is_ascii_hexdigit()) && v.len() % 2 == 1 => {
+                rb = rb.header(F::identity_header(), hyper::header::HeaderValue::from_bytes(&unhex(&v[1..])).expect("harness: header bytes"))
+            }
             v => rb = rb.header(F::identity_header(), v),
         }
         let req = rb.body(Body::empty()).unwrap();
@@ -245,7 +249,7 @@ pub mod c20 {
         // identity derivation
         for flavor in ["helper", "shard"] {
             let good: [&str; 3] = if flavor == "helper" { ["A", "B", "C"] } else { ["0", "1", "2"] };
-            let mut headers = vec!["none", "bad", "", "H1", "-1", "a", "4294967296", "4294967295", "+1", "007", "+", "1_0", "0x1"];
+            let mut headers = vec!["none", "bad", "", "H1", "-1", "a", "4294967296", "4294967295", "+1", "007", "+", "1_0", "0x1", "x41ff", "xc3a9", "x31e9"];
             headers.extend(good);
             for arm in ["tls", "plain"] {
                 for cert in ["none", "0", "1", "2"] {
@@ -472,7 +476,9 @@ fn verif_c09_query() {
 //     chain      - | comma-separated, end-entity FIRST: 0|1|2 = test certificate i byte for byte (0, 1 are
 //                on file for peers 0, 1; 2 is on file for nobody) | r0|r1|r2 = a certificate freshly
 //                re-issued for the key of test certificate i (same subject and key, other bytes: chains
-//                to the trust anchor i, is on file for nobody)
+//                to the trust anchor i, is on file for nobody) | l0|l1|l2 = a leaf certificate for a FRESH
+//                key (subject CN=leaf), issued with the key and subject of test certificate i; its key is
+//                the key token kl<i>
 //     plain      key and chain must be `-`; the identity can only come from the header
 //   -> conn-err | 401 | other:<status> | ok | ok from=<i>|none   on the step route: the peer whose
 //      inbound record stream (`HttpTransport::receive(peer, (query, gate))`) got the request body
@@ -644,14 +650,45 @@ pub mod c20_live {
         params.self_signed(&key).expect("harness: re-issue").der().clone()
     }
 
-    fn chain_of(tok: &str) -> Vec<CertificateDer<'static>> {
+    /// leaf certificates for fresh keys, one per issuer i, minted with the key (and subject) of test
+    /// certificate i: (certificate, PKCS#8 key)
+    struct Leaves([Option<(CertificateDer<'static>, Vec<u8>)>; 3]);
+
+    impl Leaves {
+        fn get(&mut self, i: usize) -> &(CertificateDer<'static>, Vec<u8>) {
+            self.0[i].get_or_insert_with(|| {
+                let id = ShardedHelperIdentity::new(HelperIdentity::make_three()[i], ShardIndex::FIRST);
+                let (_, key_pem) = get_test_certificate_and_key(id);
+                let issuer_key = rcgen::KeyPair::from_pem(std::str::from_utf8(key_pem).unwrap()).expect("harness: test key");
+                let mut ip = rcgen::CertificateParams::default();
+                let mut name = rcgen::DistinguishedName::new();
+                name.push(rcgen::DnType::CommonName, "localhost");
+                ip.distinguished_name = name;
+                let issuer = ip.self_signed(&issuer_key).expect("harness: issuer");
+                let leaf_key = rcgen::KeyPair::generate().expect("harness: fresh key");
+                let mut lp = rcgen::CertificateParams::default();
+                let mut name = rcgen::DistinguishedName::new();
+                name.push(rcgen::DnType::CommonName, "leaf");
+                lp.distinguished_name = name;
+                let cert = lp.signed_by(&leaf_key, &issuer, &issuer_key).expect("harness: mint leaf");
+                (cert.der().clone(), leaf_key.serialize_der())
+            })
+        }
+    }
+
+    fn chain_of(tok: &str, leaves: &mut Leaves) -> Vec<CertificateDer<'static>> {
         if tok == "-" {
             return Vec::new();
         }
         tok.split(',')
-            .map(|c| match c.strip_prefix('r') {
-                Some(i) => reissued(i.parse().expect("harness: chain token")),
-                None => cert_key(c.parse().expect("harness: chain token")).0.remove(0),
+            .map(|c| {
+                if let Some(i) = c.strip_prefix('r') {
+                    reissued(i.parse().expect("harness: chain token"))
+                } else if let Some(i) = c.strip_prefix('l') {
+                    leaves.get(i.parse().expect("harness: chain token")).0.clone()
+                } else {
+                    cert_key(c.parse().expect("harness: chain token")).0.remove(0)
+                }
             })
             .collect()
     }
@@ -673,9 +710,13 @@ pub mod c20_live {
                 b.with_no_client_auth()
             }
             Some(k) => {
-                let der = cert_key(k.parse().expect("harness: key token")).1;
+                let mut leaves = Leaves([None, None, None]);
+                let der = match k.strip_prefix('l') {
+                    Some(i) => PrivateKeyDer::Pkcs8(leaves.get(i.parse().expect("harness: key token")).1.clone().into()),
+                    None => cert_key(k.parse().expect("harness: key token")).1,
+                };
                 let signing = CRYPTO_PROVIDER.key_provider.load_private_key(der).expect("harness: load key");
-                let ck = rustls::sign::CertifiedKey::new(chain_of(chain), signing);
+                let ck = rustls::sign::CertifiedKey::new(chain_of(chain, &mut leaves), signing);
                 b.with_client_cert_resolver(std::sync::Arc::new(rustls::sign::SingleCertAndKey::from(ck)))
             }
         };
@@ -853,6 +894,9 @@ pub mod c20_live {
         ("k0", "1"), ("k1", "0"), ("k0", "1,0"), ("k1", "0,1"), ("k1", "r0,0"),
         // a key that no trust anchor vouches for
         ("k2", "2"), ("k2", "r2"), ("k2", "r2,0"), ("k2", "2,1,0"),
+        // a leaf for a fresh key minted by the holder of key 1 / 0 / 2: handshake-valid iff the issuer is a
+        // pinned peer, on file for nobody; followed by its issuer's / another peer's public certificate
+        ("kl1", "l1"), ("kl1", "l1,1"), ("kl1", "l1,0"), ("kl0", "l0,1,0"), ("kl2", "l2,0"), ("k1", "l1,1"), ("kl1", "1"),
     ];
 
     fn chain_cases(rng: &mut Rng, thorough: bool, v: &mut Vec<String>) {
@@ -897,11 +941,11 @@ pub mod c20_live {
             }
             // random chains
             for _ in 0..(if thorough { 150 } else { 12 }) {
-                let toks = ["0", "1", "2", "r0", "r1", "r2"];
+                let toks = ["0", "1", "2", "r0", "r1", "r2", "l0", "l1", "l2"];
                 let n = 1 + rng.below(5) as usize;
-                let chain: Vec<&str> = (0..n).map(|_| toks[rng.below(6) as usize]).collect();
+                let chain: Vec<&str> = (0..n).map(|_| toks[rng.below(9) as usize]).collect();
                 // mostly the key of the first certificate (otherwise the handshake fails)
-                let k = if rng.below(4) == 0 { rng.below(3) as usize } else { chain[0].trim_start_matches('r').parse().unwrap() };
+                let k = if rng.below(4) == 0 { rng.below(3).to_string() } else { chain[0].trim_start_matches('r').to_string() };
                 let bind = if rng.bool() { "self" } else { "pre" };
                 v.push(format!("c20.chain {server} tls {bind} {sgroup} {smethod} {spath} k{k} {} none {sbody}", chain.join(",")));
             }
